@@ -43,7 +43,7 @@ Params(f) ==
     [] f = "Uniform" -> {<< <<RZero>>, <<ROne>> >>, << <<Q(-3, 2)>>, <<Q(1, 4)>> >>, << <<Q(-3, 2), RZero, R(2)>>, <<Q(1, 2), R(5), Q(9, 4)>> >>,
                          << <<RZero>>, <<Q(1, 2), R(5), Q(9, 4)>> >>}
 \* evaluation points per coordinate: generic, negative, zero, the support edges, far out
-Points(f, ps, i) == {Q(3, 10), Q(-7, 5), RZero, Q(1, 4), R(40), Q(-1, 1000)}
+Points(f, ps, i) == {Q(3, 10), Q(-7, 5), RZero, Q(1, 4), R(40), Q(-1, 1000), R(-40), R(10000), R(-10000)}
                     \cup (IF f = "Uniform" THEN {Bc(ps[1], i), Bc(ps[2], i), RDiv(RAdd(Bc(ps[1], i), Bc(ps[2], i)), R(2))} ELSE {})
 PointVectors(f, ps) == LET n == Dim(ps) IN
    { [i \in 1..n |-> p] : p \in Points(f, ps, 1) } \cup
